@@ -118,6 +118,15 @@ def check_circuit(case):
     # also against the library's own pure evaluation
     proportional(got, np.asarray(d.eval().array, dtype=complex),
                  "library-eval-vs-zx", common.show(d))
+    # gates rebuilt by a dagger taken before the translation are equal to,
+    # but not the same objects as, the module's constants
+    back = d.dagger().dagger()
+    proportional(qsem.zx_eval(c14.zx_spec_of(circuit2zx(back))), ref,
+                 "double-dagger-then-zx", common.show(back))
+    dag = d.dagger()
+    proportional(qsem.zx_eval(c14.zx_spec_of(circuit2zx(dag))),
+                 qsem.pure_eval(specs.spec_dagger(spec)),
+                 "dagger-then-zx", common.show(dag))
     gates = [b for b, _ in spec["layers"] if b["k"] == "g"]
     rot = any(g["g"] in ["Rx", "Rz"] + CONTROLLED_ROT
               and g["a"][0] not in (0, 0.5, 1) for g in gates)
